@@ -420,6 +420,7 @@ func (r *runner) do(op M) M {
 		res["err"] = errStr(err)
 	case "avail":
 		out := []bool{}
+		logged := []interface{}{}
 		for _, t := range vh.List(op["tuples"]) {
 			tt := vh.List(t)
 			var nets []tcpip.NetworkProtocolNumber
@@ -430,10 +431,12 @@ func (r *runner) do(op M) M {
 			if vh.Str(tt[1]) == "tcp" {
 				tp = tcp.ProtocolNumber
 			}
-			out = append(out, st.IsPortAvailable(nets, tp, addrOf(vh.Str(tt[2])), uint16(vh.Int(tt[3]))))
+			port := geti(M{"p": tt[3]}, "p", 0)
+			out = append(out, st.IsPortAvailable(nets, tp, addrOf(vh.Str(tt[2])), uint16(port)))
+			logged = append(logged, []interface{}{tt[0], tt[1], tt[2], port})
 		}
 		res["avail"] = out
-		delete(res, "tuples")
+		res["tuples"] = logged
 	case "addaddr":
 		a := addrOf(gets(op, "addr", ""))
 		np := wire.ProtoIPv4
